@@ -214,17 +214,18 @@ def judge(case: dict[str, Any]) -> Judgement:
             if np.any(call.perturbations >= 0):
                 j.fail("perturbation-label-on-unperturbed-row", op=op)
         # ---- rows are user-domain images of what the results report; values are the returned rows
-        fcount = 0
+        # The order of the rows inside a request is not part of the statement: an unperturbed row belongs to the result
+        # (of the batch) that reports its variable vector and has not yet been given a row of that realization.
+        used: set[tuple[int, int]] = set()
+        reported_x = [to_user_x(np.asarray(item.evaluations.variables)) for item in fres]
         for i, (r, p) in enumerate(labels):
             if p < 0:
-                b = fcount // R if not has_g else 0
-                # function batches are tiled: row order within the batch is checked through the label+value match below
-                res = fres[min(b, len(fres) - 1)] if not has_g else fres[0]
-                fcount += 1
-                x_rep = to_user_x(np.asarray(res.evaluations.variables))
-                if not close(call.variables[i], x_rep, 1e-12):
-                    # for batches the b-th result must correspond to the b-th group of rows
-                    j.fail("unperturbed-row-not-user-domain-variables", op=op, row=i, observed=call.variables[i], expected=x_rep)
+                b = next((k for k in range(len(fres)) if (k, r) not in used and close(call.variables[i], reported_x[k], 1e-12)), None)
+                if b is None:
+                    j.fail("unperturbed-row-not-user-domain-variables", op=op, row=i, observed=call.variables[i], expected=reported_x)
+                    continue
+                used.add((b, r))
+                res = fres[b]
                 user = res if transforms is None else res.transform_from_optimizer(transforms)
                 got = list(np.asarray(user.evaluations.objectives)[r]) + list(np.asarray(user.evaluations.constraints)[r])
                 ret = list(call.objectives[i]) + list(call.constraints[i])
